@@ -52,7 +52,12 @@ def make_data(seed):
     return data
 
 
-CLASSES = ['LinearGAM', 'LogisticGAM', 'PoissonGAM', 'GammaGAM', 'InvGaussGAM', 'ExpectileGAM']
+CLASSES = ['LinearGAM', 'LogisticGAM', 'PoissonGAM', 'GammaGAM', 'InvGaussGAM', 'ExpectileGAM',
+           # the generic class keeps the distribution / link OBJECTS it was given across fits and copies (the named classes rebuild them):
+           # unknown-scale families, and binomial / poisson as controls
+           'GAM:normal:identity', 'GAM:gamma:log', 'GAM:inv_gauss:log', 'GAM:binomial:logit', 'GAM:poisson:log']
+TARGET_OF = {'GAM:normal:identity': 'LinearGAM', 'GAM:gamma:log': 'GammaGAM', 'GAM:inv_gauss:log': 'InvGaussGAM',
+             'GAM:binomial:logit': 'LogisticGAM', 'GAM:poisson:log': 'PoissonGAM'}
 FIT_TOL, FIT_MAX_ITER = 1e-7, 200      # tight enough that a warm-started refit and a fresh fit agree to ~1e-8 when both converge
 
 
@@ -78,7 +83,30 @@ def new_model(cls, terms, like=None):
     kw = dict(tol=FIT_TOL, max_iter=FIT_MAX_ITER)
     if cls == 'ExpectileGAM' and like is not None:
         kw['expectile'] = like.expectile          # fit_quantile changes this setting
+    if cls.startswith('GAM:'):
+        _, dist, link = cls.split(':')
+        return pygam.GAM(terms, distribution=dist, link=link, **kw)
     return getattr(pygam, cls)(terms, **kw)
+
+
+def terms_snap(model):
+    """hyper-parameters and data-dependent state of the model's term objects (a query must not touch them)"""
+    out = []
+    for t in model.terms._terms:
+        subs = list(t._terms) if t.istensor else [t]
+        for x in subs:
+            ek = getattr(x, 'edge_knots_', None)
+            out.append((type(x).__name__, id(x), repr(getattr(x, 'lam', None)), getattr(x, 'n_splines', None),
+                        None if ek is None else np.asarray(ek, dtype=float).tobytes(), repr(getattr(x, 'penalties', None))))
+    return out
+
+
+def summary_stats(model, X):
+    """identifiable fit summaries (se / cov entries are not compared: the default models are unidentifiable)"""
+    st = model.statistics_
+    out = {'scale': float(st['scale']), 'edof': float(st['edof']), 'loglikelihood': float(st['loglikelihood']), 'AIC': float(st['AIC']),
+           'ci90': np.asarray(model.confidence_intervals(X, width=0.9), dtype=float)}
+    return out
 
 
 def converged(model):
@@ -154,7 +182,7 @@ class Hist(object):
     def xyw(self, d):
         X, y, w = self.data[d]
         if self.targets is not None:
-            y = self.targets[d][self.cls]
+            y = self.targets[d][TARGET_OF.get(self.cls, self.cls)]
         e = self.expo[d] if self.expo is not None else None
         return X, y, w, e
 
@@ -168,11 +196,11 @@ class Hist(object):
         pre = None
         if query and fitted and Xref is not None:
             try:
-                pre = (model.predict_mu(Xref).tobytes(), stats_snap(model), model.coef_.tobytes())
+                pre = (model.predict_mu(Xref).tobytes(), stats_snap(model), model.coef_.tobytes(), terms_snap(model))
             except Exception:
                 pre = None
         try:
-            with contextlib.redirect_stdout(io.StringIO()), warnings_off():
+            with contextlib.redirect_stdout(io.StringIO()), contextlib.redirect_stderr(io.StringIO()), warnings_off():
                 out = fn(model, X, y, w, e)
         except Exception as ex:
             out = ex
@@ -182,12 +210,12 @@ class Hist(object):
                                             observed='array bytes changed', expected='bitwise unchanged'))
         if pre is not None:
             try:
-                post = (model.predict_mu(Xref).tobytes(), stats_snap(model), model.coef_.tobytes())
+                post = (model.predict_mu(Xref).tobytes(), stats_snap(model), model.coef_.tobytes(), terms_snap(model))
             except Exception as ex:
                 post = ('raised', type(ex).__name__)
             self.res.case(('purity', self.hid, len(self.log), what))
             if post != pre:
-                self.res.violations.append(dict(what='query %s changed the fitted model\'s predictions / statistics_ / coef_' % what,
+                self.res.violations.append(dict(what='query %s changed the fitted model\'s predictions / statistics_ / coef_ / term hyper-parameters (lam, n_splines, edge knots)' % what,
                                                 finding=None, input=dict(cls=self.cls, history=self.log, call=what, model=m, data=d),
                                                 observed='snapshot differs', expected='bitwise unchanged'))
         return out
@@ -288,6 +316,10 @@ class Hist(object):
                 'summary': ('(Summary %d)', lambda g, X, y, w, e: g.summary()),
                 'sample': ('(Sample %d)', lambda g, X, y, w, e: g.sample(X, y, quantity=rng.choice(['y', 'mu', 'coef']), n_draws=2,
                                                                        n_bootstraps=1, weights=w)),
+                # n_bootstraps > 1 refits copies with a random lam search: the model itself must stay untouched
+                'sample_bootstraps': ('(Sample %d)', lambda g, X, y, w, e: g.sample(X, y, quantity=rng.choice(['mu', 'coef']), n_draws=2,
+                                                                                   n_bootstraps=rng.choice([2, 3]),
+                                                                                   weights=w if rng.random() < 0.5 else None)),
                 'loglik': ('(Loglik %d)', (lambda g, X, y, w, e: g.loglikelihood(X, y, exposure=e, weights=w)) if pois
                            else (lambda g, X, y, w, e: g.loglikelihood(X, y, weights=w))),
                 'residuals': ('(Residuals %d)', lambda g, X, y, w, e: g.deviance_residuals(X, y, weights=w, scaled=rng.random() < 0.5)),
@@ -305,12 +337,15 @@ class Hist(object):
                 calls['accuracy'] = ('(Accuracy %d)', lambda g, X, y, w, e: g.accuracy(X, y))
             if pois:
                 calls['predict_exposure'] = ('(Predict %d)', lambda g, X, y, w, e: g.predict(X, exposure=e))
-            q = rng.choice(sorted(calls))
+            q = rng.choice(sorted(calls) + ['sample_bootstraps'])
             np.random.seed(rng.randrange(1 << 30))
             fmt, fn = calls[q]
-            self.guarded(q, m, dq, fn, query=True)
+            dcall = dq
+            if q.startswith('sample') and rng.random() < 0.4:      # sampling at another data set than the one the model was fitted on
+                dcall = rng.choice([x for x in range(1, NDATA + 1) if x != dq])
+            self.guarded(q, m, dcall, fn, query=True)
             self.ops.append(fmt % m)
-            self.log.append('m%d.%s(data%d)' % (m, q, dq))
+            self.log.append('m%d.%s(data%d)' % (m, q, dcall))
             self.res.count('query:%s.%s' % (self.cls, q))
             return
         if r < 0.90:
@@ -507,6 +542,18 @@ def observe_with_weights(h):
                 try:
                     with warnings_off():
                         fe = bool(np.allclose(model.predict_mu(X), fresh.predict_mu(X), rtol=1e-5, atol=1e-8))
+                        # same predictions must come with the same statistics and intervals (scale, edof, log-likelihood, AIC, a 90% CI)
+                        if fe:
+                            a, b = summary_stats(model, X), summary_stats(fresh, X)
+                            bad = [k for k in a if not np.allclose(a[k], b[k], rtol=1e-5, atol=1e-7)]
+                            h.res.case(('fresh-stats', h.hid, m))
+                            if bad:
+                                h.res.violations.append(dict(
+                                    what='a model predicts like a fresh model fitted the same way but its %s differ: the fit is not a function '
+                                         'of settings and data' % ' / '.join(bad), finding=None,
+                                    input=dict(cls=h.cls, history=h.log, model=m, data=d),
+                                    observed={k: (a[k] if k != 'ci90' else float(np.abs(a[k] - b[k]).max())) for k in bad},
+                                    expected={k: (b[k] if k != 'ci90' else 'equal intervals') for k in bad}))
                 except Exception:
                     fe = False
                 h.res.case(('fresh-equal', h.hid, m))
@@ -673,8 +720,8 @@ def direct_probes(res, data):
 def run(res):
     rng = common.rng_for(res.seed, PROP)
     quick = res.tier == 'quick'
-    res.rule = ('random call histories (6-14 steps), distributed evenly over the six model classes LinearGAM, LogisticGAM, PoissonGAM, GammaGAM, '
-                'InvGaussGAM, ExpectileGAM (class-appropriate targets per data set: reals, 0/1, counts, positive reals; tol=1e-7, max_iter=200), '
+    res.rule = ('random call histories (6-14 steps), distributed evenly over the six named model classes LinearGAM, LogisticGAM, PoissonGAM, GammaGAM, '
+                'InvGaussGAM, ExpectileGAM and the generic GAM with normal/identity, gamma/log, inv_gauss/log, binomial/logit, poisson/log (class-appropriate targets per data set: reals, 0/1, counts, positive reals; tol=1e-7, max_iter=200), '
                 'over up to 5 term objects (spline / factor / linear) and up to 5 models built from overlapping subsets of the SAME term '
                 'objects, three data sets with distinct ranges / category codes: fit (with or without weights; PoissonGAM with or without '
                 'exposure; ExpectileGAM also fit_quantile), predict, predict_mu, confidence intervals, partial_dependence, summary, sample, '
@@ -682,8 +729,8 @@ def run(res):
                 'predict_proba, accuracy, predict with exposure), gridsearch keep_best on/off, deepcopy, pickle, set_params -- executed on real '
                 'models and on the Coq heap machine; compared per model: identity graph of term objects, which data set each term\'s edge '
                 'knots / categories come from, fitted data set, "predicts like a fresh model of the same class and current settings fitted the '
-                'same way" (rtol 1e-5, only when both fits report convergence; the rest is counted). Around every call the caller\'s '
-                'X / y / weights / exposure are compared bitwise; around every query predict_mu(X_ref), statistics_ and coef_ are compared '
+                'same way" (rtol 1e-5, only when both fits report convergence; the rest is counted) and then also has its scale, edof, log-likelihood, AIC and a 90% confidence interval; sample is called with n_bootstraps 1, 2, 3 at the training data and at another data set. Around every call the caller\'s '
+                'X / y / weights / exposure are compared bitwise; around every query predict_mu(X_ref), statistics_, coef_ and the term objects\' lam / n_splines / edge knots are compared '
                 'bitwise; predictions / intervals / class-specific predictions on random row subsets and permutations must equal the rows of '
                 'the full result. A history is non-trivial when it contains a fit; all generated histories do.')
     common.standard_prove(res, PROPS_FILE)
@@ -697,7 +744,7 @@ def run(res):
                                    input=dict(probe='harness/props/c15.py direct_probes', trace=traceback.format_exc()[-600:]),
                                    observed='%s: %s' % (type(e).__name__, e), expected='no exception'))
     targets, expo = make_targets(data, res.seed % 1000)
-    cases, meta = history_cases(res, rng, 354 if quick else 4002, data, targets, expo)
+    cases, meta = history_cases(res, rng, 396 if quick else 4004, data, targets, expo)
     with common.CaseDir(PROP) as cd:
         failing, errors = common.run_bool_cases(cd, HEADER, cases, 'check_case', shard=60)
     for name, out in errors:
